@@ -40,8 +40,8 @@ def run(rep, tier):
     gen = gm.class_tables(gm.read(gm.FILES["py_listener"], rep), "blackbirdListener")
     gen_handlers = {n.name for n in gen["cls"].body if isinstance(n, ast.FunctionDef)}
     tables = inventory(rep, E, ix)
-    c12_2(rep, ix, G, tables, gen_handlers)
-    c12_3(rep, E, ix, tables)
+    common.guarded(rep, "C12.2", c12_2, rep, ix, G, tables, gen_handlers)
+    common.guarded(rep, "C12.3", c12_3, rep, E, ix, tables)
 
 
 # ------------------------------------------------------------------ C12.1 inventory of process-wide mutable state
